@@ -9,7 +9,7 @@ HOOKS = {
 ENGINES = [
     {"name": "fault", "path": "/verif/mc/props/C08.py", "serves_properties": ["C08"],
      "kind_free_text": "fault-point enumerator: public-API fault menu x position and sys.settrace call-level injection, snapshot oracle"},
-    {"name": "hist", "path": "/verif/mc/props", "serves_properties": ["C09", "C10", "C11", "C18"],
+    {"name": "hist", "path": "/verif/mc/props", "serves_properties": ["C09", "C10", "C11", "C18", "C20"],
      "kind_free_text": "explicit-state BFS over the real API: states rebuilt by history replay on fresh "
                        "objects, canonical form by names, invariant + reference model after every transition"},
 ]
@@ -62,5 +62,17 @@ CHECKS["C18"] = dict(
          "aliased); then each of ~40-50 mutations is applied to one side of a fresh pair and the other side must stay byte-identical.",
     note="One mutation per pair (depth 2 histories); quick restricts the full mutation alphabet to a subset of states, thorough runs the "
          "complete product. Plain functions may be shared. Trusted: deep_sig / reachable_mutables walkers.")
+CHECKS["C20"] = dict(
+    engine="hist", level="model_checking", design_ref="DESIGN.md §4 C20",
+    technique="per-leaf exhaustive enumeration of style-assignment histories (notation x layer x value, reset) on the real style/defaults objects against a layered flat-dict precedence model",
+    text="For every style leaf of 5 (thorough 6) object families (introspected, ~140 leaves) all histories of up to 2 actions (six "
+         "object-level notations x 2 probed values, family-default and base-default writes in 2 notations, defaults.reset()) from three "
+         "births (plain, constructor underscore keyword, constructor nested dict) are executed; after every step the object's style, the "
+         "resolved style with and without a show() keyword, a bystander object, an earlier copy and the complete defaults tree are "
+         "compared with the model; invalid values and names must be rejected without effect; every one of the 158 default leaves is "
+         "written in 3 notations and reset() is compared with the import baseline.",
+    note="Leaf values are derived by probing a fixed candidate pool (leaves without two accepted values are listed as uncovered in the "
+         "evidence). The harness restores the global defaults itself between histories (per-leaf assignment, verified). Trusted: the "
+         "layered model in mc/props/C20.py (object > family default > base default; show kwarg on top).")
 _todo = "check not built yet in this session (planned, see DESIGN.md §4); nothing is claimed for it"
 NOT_APPLICABLE = [{"property_id": f"C{i:02d}", "reason": _todo} for i in range(1, 21) if f"C{i:02d}" not in CHECKS]
